@@ -2,10 +2,11 @@
 # integrate.sh <id>: copy the files a builder agent created in /tmp/w/<id>/verif into /verif (never overwrites)
 set -e
 SRC=/tmp/w/$1/verif
-for d in lean/PyomaVerif/Model lean/PyomaVerif/Lemmas lean/PyomaVerif/Props lean/PyomaVerif/Mutants lean/PyomaVerif/Ops lean/PyomaVerif/Generated harness corpus proposed_fixes; do
+for d in lean/PyomaVerif/Model lean/PyomaVerif/Lemmas lean/PyomaVerif/Props lean/PyomaVerif/Mutants lean/PyomaVerif/Ops lean/PyomaVerif/Generated harness corpus; do
   [ -d "$SRC/$d" ] || continue
   mkdir -p /verif/$d
   rsync -a --ignore-existing --exclude __pycache__ "$SRC/$d/" "/verif/$d/"
 done
+[ -d "$SRC/proposed_fixes" ] && mkdir -p /verif/proposed_fixes/$1 && cp -n "$SRC"/proposed_fixes/* /verif/proposed_fixes/$1/ 2>/dev/null
 echo "copied; files differing from /verif originals (not overwritten):"
 for d in lean/PyomaVerif harness; do diff -rq "$SRC/$d" "/verif/$d" 2>/dev/null | grep -v "Only in /verif" | grep -v __pycache__ || true; done
